@@ -745,8 +745,17 @@ func (t *trzszTransfer) pipelineRecvAck(ctx *pipelineContext, size int64, ackCha
 				ignoreChunkTimeCount = kAckChanBufferSize + 2
 			}
 
-			if ignoreChunkTimeCount <= 0 || t.bufInitPhase.Load() {
+			// chunks that were on their way while the peer sat at its stop/continue question say nothing about the
+			// link; in the probing phase the bookkeeping below still has to run, with their time taken as unknown
+			acrossPause := ignoreChunkTimeCount > 0
+			if acrossPause {
+				ignoreChunkTimeCount--
+			}
+			if !acrossPause || t.bufInitPhase.Load() {
 				chunkTime := time.Since(ack.begin)
+				if acrossPause {
+					chunkTime = 0
+				}
 				bufSize := t.bufferSize.Load()
 
 				if length == bufSize && chunkTime < 500*time.Millisecond && bufSize < t.transferConfig.MaxBufSize {
@@ -771,8 +780,6 @@ func (t *trzszTransfer) pipelineRecvAck(ctx *pipelineContext, size int64, ackCha
 				}
 
 				t.setLastChunkTime(chunkTime)
-			} else {
-				ignoreChunkTimeCount--
 			}
 
 			if ctx.Err() != nil {
